@@ -1,5 +1,6 @@
 import ServlinVerif.Driver.C14
 import ServlinVerif.Driver.C20
+import ServlinVerif.Driver.Req
 import ServlinVerif.Driver.C07
 import ServlinVerif.Driver.C16
 /-
@@ -30,6 +31,7 @@ def handleLine (line : String) : String :=
     | "c14" => viaSpec (C14.handle args) obs
     | "c14a" => viaSpec (C14.handleAscii args) obs
     | "c14n" => viaSpec (C14.handleNum args) obs
+    | "c01" => Req.handleC01 args obs
     | "c07" => C07.handle args obs
     | "c16n" => C16.handleNew args obs
     | "c16a" => C16.handleAdd args obs
